@@ -43,11 +43,12 @@ Qed.
 (* the guard of Integer elements is exactly |z| < 10^4300 *)
 Theorem int_ok_iff z : int_ok z = true <-> Z.abs z < 10 ^ 4300.
 Proof.
+  (* no [lia] on goals mentioning 10 ^ 4300: it would put the 4301-digit constant into its certificate *)
   split.
   - intros H. destruct (Z.lt_ge_cases (Z.abs z) (10 ^ 4300)) as [L|G]; [exact L|].
-    rewrite (int_ok_limit z) in H by (change (Z.of_nat MAX_STR_DIGITS) with 4300; lia). discriminate.
-  - intros H. unfold int_ok. apply Nat.leb_le. apply digits_few; [|unfold MAX_STR_DIGITS; lia].
-    change (Z.of_nat MAX_STR_DIGITS) with 4300. lia.
+    rewrite (int_ok_limit z G) in H. discriminate.
+  - intros H. unfold int_ok. apply Nat.leb_le. apply digits_few; [|apply Nat.ltb_lt; reflexivity].
+    split; [apply Z.abs_nonneg|exact H].
 Qed.
 
 (* ====================================================================== what the tokenizer hands to the reader *)
